@@ -415,6 +415,16 @@ def run_pipeline(
         # The detector should be reset before exposure
         detector.empty()
 
+        if debug:
+            # Start with a fresh tree of intermediate results: nothing recorded
+            # by an earlier run on this detector may be mixed with this run
+            intermediate: xr.DataTree = xr.DataTree()
+            intermediate.name = "intermediate"
+            intermediate.attrs = {
+                "long_name": "Store all intermediate results modified along a pipeline"
+            }
+            detector._intermediate = intermediate
+
         if progressbar:
             pbar = tqdm(
                 total=detector.readout_properties.num_steps,
